@@ -82,7 +82,12 @@ Inductive case :=
   (** one [ca_sync_parent] of a CA whose parent is local: the requests the parent state shows to have been
       served (derived by the harness from the state difference; a sync that ended in an error without any
       trace at the parent is recorded as its first request, the list query), and as which child *)
-| CLocal (pre : parent) (cl : caller) (reqs : list req) (post : parent) (served_as : option handle).
+| CLocal (pre : parent) (cl : caller) (reqs : list req) (post : parent) (served_as : option handle)
+  (** one repository exchange ([update_repo] with check / [cas_repo_sync_single]) of a CA whose repository is
+      local: the queries the repository state shows to have been served (a list query, then one delta derived
+      from the difference of the publisher's objects; an exchange that ended in an error: the list query), and
+      as which publisher *)
+| CLocal8181 (pre : repo) (cl : caller) (qs : list query) (post : repo) (served_as : option handle).
 
 (** What the model may be given for an observed message: untouched bytes are intact; flipped bytes
     are not intact - unless they still decode to the identical content, in which case either. *)
@@ -98,6 +103,15 @@ Fixpoint local_run (st : parent) (cl : caller) (reqs : list req) : parent * opti
       (st'', match who with Some c => Some c | None => match o with Served c _ | Failed c => Some c | _ => None end end)
   end.
 
+Fixpoint local8181_run (rp : repo) (cl : caller) (qs : list query) : repo * option handle :=
+  match qs with
+  | [] => (rp, None)
+  | q :: rest =>
+      let (rp', o) := local8181 rp cl q in
+      let (rp'', who) := local8181_run rp' cl rest in
+      (rp'', match who with Some h => Some h | None => match o with Served h _ => Some h | _ => None end end)
+  end.
+
 Definition agrees (c : case) : bool :=
   match c with
   | C6492 pre ua m corrupt same post out =>
@@ -108,6 +122,8 @@ Definition agrees (c : case) : bool :=
                          repo_eqb rp' post && outcome_eqb preply_eqb o out) (variants m corrupt same)
   | CLocal pre cl reqs post who =>
       let (st', w) := local_run pre cl reqs in parent_eqb st' post && opt_eqb N.eqb w who
+  | CLocal8181 pre cl qs post who =>
+      let (rp', w) := local8181_run pre cl qs in repo_eqb rp' post && opt_eqb N.eqb w who
   end.
 
 (** ** Oracle 1: [c12_ok] - acted upon => signed by the key registered for the claimed sender and
@@ -138,6 +154,11 @@ Definition c12_ok (c : case) : bool :=
       match who with
       | None => parent_eqb pre post                       (* refused: nothing changes at the parent *)
       | Some c => registered_key_is pre c (cl_id cl)
+      end
+  | CLocal8181 pre cl _ post who =>
+      match who with
+      | None => repo_eqb pre post                         (* refused: nothing changes at the repository *)
+      | Some h => publisher_key_is pre h (cl_id cl)
       end
   end.
 
@@ -210,6 +231,7 @@ Definition c12_confined (c : case) : bool :=
       | _, _, _ => true
       end
   | CLocal pre cl _ post _ => confined_for pre post (cl_contact_child cl)
+  | CLocal8181 pre cl _ post _ => confined8181_b (cl_handle cl) pre post || repo_eqb pre post
   end.
 
 (** ** Oracle 3: [c12_reply] - replies are signed with the server side's current identity key
@@ -228,6 +250,7 @@ Definition c12_reply (c : case) : bool :=
       | _ => true
       end
   | CLocal _ _ _ _ _ => true
+  | CLocal8181 _ _ _ _ _ => true
   end.
 
 (** Indices of cases on which a predicate fails. *)
@@ -250,3 +273,11 @@ Definition f12a_case : case :=
 Definition f12a_repaired_case : case :=
   let p := mkParent 1 10 [(0, mkRC (Some 15) [] [])] [(2, mkChild 20 3 [] false None)] 5 in
   CLocal p (mkCaller 3 99 2) [RList] p None.
+
+(** The same for the F12b witness: what the pinned publication shortcut did, and what the repaired one does. *)
+Definition f12b_case : case :=
+  CLocal8181 (mkRepo 50 [(7, mkPub 70 [7] [([7; 1], 5)])] 0) (mkCaller 7 99 0) [QList; QDelta [EWdr [7; 1] 5]]
+             (mkRepo 50 [(7, mkPub 70 [7] [])] 1) (Some 7).
+Definition f12b_repaired_case : case :=
+  let r := mkRepo 50 [(7, mkPub 70 [7] [([7; 1], 5)])] 0 in
+  CLocal8181 r (mkCaller 7 99 0) [QList] r None.
